@@ -458,6 +458,11 @@ func (s *attackSim) observeResult(r *resultSnap, now time.Duration) {
 		s.fail("C02", "C02.seq-dup", "sequence number %d delivered twice", r.Seq)
 	}
 	s.seen[r.Seq] = *r
+	if r.Error == errSimTargeter.Error() && s.selfStopSeen < 0 {
+		// the hit whose target could not be had stops the attack before it hands its result over: from the step
+		// at which that result has been received, the attack has stopped itself
+		s.selfStopSeen = s.w.Step
+	}
 	s.consumedOrder = append(s.consumedOrder, r.Seq)
 	s.C++
 	if s.C > s.S {
@@ -534,6 +539,11 @@ func (s *attackSim) checkStops(final bool) {
 	}
 	if trues > 1 {
 		s.fail("C02", "C02.stop-two-true", "%d Stop calls reported that they initiated the stop", trues)
+	}
+	for i, c := range s.stops {
+		if c.done && c.value && s.selfStopSeen >= 0 && c.invoked > s.selfStopSeen {
+			s.fail("C02", "C02.stop-true-after-self-stop", "Stop call %d reported that it initiated the stop, although it was made after the result of the hit whose targeter failure had stopped the attack was received", i)
+		}
 	}
 	for i, c := range s.stops {
 		if !c.done || c.value {
